@@ -3,3 +3,4 @@ import RactorModel.Extracted
 import RactorModel.Props.C18
 import RactorModel.Props.C01
 import RactorModel.Props.C03
+import RactorModel.Props.C04
